@@ -378,6 +378,10 @@ func (l *lexer) acceptString() bool {
 			} else if isStringDelim(r) {
 				term = true
 				l.backup()
+			} else if r == '/' && (strings.HasPrefix(l.input[l.pos:], "/") || strings.HasPrefix(l.input[l.pos:], "*")) && l.pos-l.width > l.start {
+				// RFC7950 Sec 6.1.3 a comment ends an unquoted string
+				term = true
+				l.backup()
 			}
 		} else {
 			if r == eof {
